@@ -992,6 +992,25 @@ def rule_pad_body(ctx, cd, which: str, rule_id: str):
 
 
 # ---- Python: aligned accessors only where the compile-time offset set is byte aligned -------------------------------------------
+def judged_at_call_sites(ts, t, mname: str) -> bool:
+    """A helper macro of the codec templates (not an emitter with the family's (type, reference, offset) signature) whose every use
+    is a printed call `{{ helper(..) }}`: render_paths expands it inside each caller with the caller's arguments, so a rule about
+    the meaning of its parameters reads it there and not on its own, where the parameters are just names."""
+    N = ts.nodes
+    macs = ts.macros(t)
+    mac = macs.get(mname)
+    if mac is None or j2text._helper_call(N, N.Call(N.Name(mname, "load"), [], [], None, None), macs) is None:
+        return False
+    printed = set()
+    for o in t.ast.find_all(N.Output):
+        for e in o.nodes:
+            hc = j2text._helper_call(N, e, macs)
+            if hc is not None and hc[0] is mac:
+                printed.add(id(hc[1]))
+    uses = [c for c in t.ast.find_all(N.Call) if isinstance(c.node, N.Name) and c.node.name == mname]
+    return bool(uses) and all(id(c) in printed for c in uses)
+
+
 def rule_py_align(ctx, cd, px, which: str, rule_id: str):
     """The Python (de)serializer has aligned and unaligned accessors; the aligned ones assert byte alignment of the cursor.  The
     templates choose by the compile-time offset set of the item that is written / read."""
@@ -1012,6 +1031,8 @@ def rule_py_align(ctx, cd, px, which: str, rule_id: str):
     for mname, mac in sorted(cd.ts.macros(t).items()):
         if not mname.startswith(("_serialize", "_deserialize")):
             continue
+        if judged_at_call_sites(cd.ts, t, mname):
+            continue        # read inside its callers, where its offset parameters are the callers' offsets
         seen = set()
         for p in cd.paths("py", which, mname):
             ph = dict(p.ph)
